@@ -155,7 +155,6 @@ Definition step (vc : bool) (m : mode) (ca : option store) (st : store) (o : op)
       end
   end.
 
-(* a history: each step is run by a client (its cache slot, None = cache disabled) *)
 Fixpoint set_nth {A} (n : nat) (a : A) (l : list A) : list A :=
   match n, l with
   | _, [] => []
@@ -163,15 +162,19 @@ Fixpoint set_nth {A} (n : nat) (a : A) (l : list A) : list A :=
   | S k, x :: r => x :: set_nth k a r
   end.
 
-Fixpoint run_ops (vc : bool) (m : mode) (caches : list store) (st : store) (h : list (option nat * op)) : list obs * list store * store :=
+(* a step is run by a client = (cache slot or None when the cache is disabled, key ring) *)
+Fixpoint run_ops (vc : bool) (caches : list store) (st : store) (h : list (option nat * mode * op))
+  : list (obs * option store) * list store * store :=
   match h with
   | [] => ([], caches, st)
-  | (cl, o) :: r =>
+  | (cl, m, o) :: r =>
       let ca := match cl with Some i => nth_error caches i | None => None end in
       let '(ob, ca', st') := step vc m ca st o in
       let caches' := match cl, ca' with Some i, Some c => set_nth i c caches | _, _ => caches end in
-      let '(obs, cs, s) := run_ops vc m caches' st' r in (ob :: obs, cs, s)
+      let '(obs, cs, s) := run_ops vc caches' st' r in ((ob, ca') :: obs, cs, s)
   end.
+
+Definition observations (x : list (obs * option store) * list store * store) : list obs := map fst (fst (fst x)).
 
 (* validity of the cache entries for the snapshot paths of a store: 1 valid, 0 absent, 2 present but not the object *)
 Definition entry_state (ca : store) (p : loc) : N :=
